@@ -439,9 +439,137 @@ class DifferenceUnits(Contract):
         # that re-defines these two names is outside the statement.
         s1, _ = self._s(a)
         sv = z3.StringVal
-        return [("units named degC / degF have the table's degree size",
-                 z3.And(z3.Implies(s1 == sv("degC"), S.scale(a.unit1) == 1),
-                        z3.Implies(s1 == sv("degF"), S.scale(a.unit1) == z3.RealVal("5/9"))))]
+        temp = is_ref(S.dim(a.unit1), "temperature")
+        return [("temperature units named degC / degF have the table's degree size",
+                 z3.And(z3.Implies(z3.And(temp, s1 == sv("degC")), S.scale(a.unit1) == 1),
+                        z3.Implies(z3.And(temp, s1 == sv("degF")),
+                                   S.scale(a.unit1) == z3.RealVal("5/9"))))]
+
+    def apply(self, it, bound):
+        # decide the dimension test first: for non-temperature operands the rule is
+        # _preserve_units and none of the string conditions enters the path condition
+        from pyvc.contracts import Args
+        a = Args(bound)
+        if not it.branch(is_ref(S.dim(a.unit1), "temperature")):
+            return PreserveUnits().apply(it, {"unit1": a.unit1, "unit2": a.unit2})
+        return Contract.apply(self, it, bound)
 
     def canary(self, it, a, r, old):
         return r[1] is a.unit1
+
+
+# ------------------------------------------------------------------ simplify and the product rules
+class CancelMul(Contract):
+    """trusted/abstract: sympy-internal rewriting of the expression; nothing but 'returns some
+    expression' is assumed (that the rewritten expression still denotes the same unit is
+    covered by the bounded layer of C05)"""
+    name = "unyt.unit_object._cancel_mul"
+    properties = ("C05",)
+    trusted = True
+    exact = True        # the result is fully havoc'd: callers may rely on nothing, so a
+    #                     counter-model that crosses it is still a real counter-model
+    assumptions = ("_cancel_mul(expr, registry) returns a sympy expression and modifies nothing "
+                   "(assumed; sympy rewriting not modelled)",)
+
+    def formals(self, it):
+        return {"expr": SExpr.fresh(it, "e"), "registry": make_registry(it, "r")}
+
+    def apply(self, it, bound):
+        return SExpr.fresh(it, "cancelled")
+
+
+class UnitSimplify(Contract):
+    name = "unyt.unit_object.Unit.simplify"
+    properties = ("C05", "C04", "C18")
+
+    def formals(self, it):
+        return {"self": make_unit(it, "self")}
+
+    def snapshot(self, it, a):
+        return dict(a.self.fields)
+
+    def havoc(self, it, a):
+        a.self.fields["expr"] = SExpr.fresh(it, "simplified")
+
+    def result(self, it, a):
+        return a.self
+
+    def ensures(self, it, a, r, old):
+        f = a.self.fields
+        return [("returns self", r is a.self),
+                ("only the expression is rewritten: scale, offset, dimension, registry untouched",
+                 all(f[k] is old[k] for k in old if k != "expr"))]
+
+    def canary(self, it, a, r, old):
+        return a.self.fields["expr"] is old["expr"]
+
+
+class _ProductRule(Contract):
+    """_multiply_units / _divide_units: (coefficient, unit) with coefficient*scale(unit) equal
+    to the product / quotient of the scales -- whatever the simplifier cancelled"""
+    properties = ("C04", "C05", "C08")
+    sign = 1
+
+    def formals(self, it):
+        return {"unit1": make_unit(it, "unit1"), "unit2": make_unit(it, "unit2")}
+
+    def track(self, it, a):
+        track_unit(it, "unit1", a.unit1)
+        track_unit(it, "unit2", a.unit2)
+
+    def _op(self):
+        return UnitMul() if self.sign == 1 else UnitTrueDiv()
+
+    def _args(self, a):
+        x = type("A", (), {})()
+        x.self, x.u = a.unit1, a.unit2
+        return x
+
+    def raises(self, it, a):
+        return self._op().raises(it, self._args(a))
+
+    def result(self, it, a):
+        c = it.fresh_real("rule_coeff")
+        it.assume(c > 0)
+        return (c, make_unit(it, "rule_unit", registry=a.unit1.fields["registry"],
+                             positive_scale=False))
+
+    def ensures(self, it, a, r, old):
+        c, u = r
+        s1, s2 = S.scale(a.unit1), S.scale(a.unit2)
+        d = S.dim(u)
+        want = s1 * s2 if self.sign == 1 else s1 / s2
+        return [
+            ("coefficient * scale(unit) == %s of the operand scales" % (
+                "product" if self.sign == 1 else "quotient"), to_real(c) * S.scale(u) == want),
+            ("coefficient is positive", to_real(c) > 0),
+            ("dimension is the %s of the dimensions" % ("product" if self.sign == 1 else "quotient"),
+             vec_is(d, vec_sum(S.dim(a.unit1), S.dim(a.unit2), self.sign))),
+            ("dimension object canonical", _b(d.canon())),
+            ("bound to the left operand's registry",
+             u.fields["registry"] is a.unit1.fields["registry"]),
+            ("zero-point offset as for the product / quotient of the units",
+             S.offset(u) == self._offset(a)),
+        ]
+
+    def _offset(self, a):
+        x = self._args(a)
+        op = self._op()
+        nz = op.offsets_nonzero(x)
+        if self.sign == 1:
+            return z3.If(nz, z3.If(z3.And(dim_in_temp_angle(x.u), dimless(x.self)),
+                                   S.offset(x.u), S.offset(x.self)), z3.RealVal(0))
+        return z3.If(nz, S.offset(x.self), z3.RealVal(0))
+
+    def canary(self, it, a, r, old):
+        return to_real(r[0]) == 1
+
+
+class MultiplyUnits(_ProductRule):
+    name = "unyt.array._multiply_units"
+    sign = 1
+
+
+class DivideUnits(_ProductRule):
+    name = "unyt.array._divide_units"
+    sign = -1
